@@ -198,6 +198,11 @@ pub fn minimise_b(case: &CaseB, en: &EnB, label: &str, cause: &str) -> (CaseB, V
     if best.kbd_end_at.is_some() { let mut c = best.clone(); c.kbd_end_at = None; if attempt!(c) { progress = true; } }
     if best.tab_end_at.is_some() { let mut c = best.clone(); c.tab_end_at = None; if attempt!(c) { progress = true; } }
     if best.hybrid { let mut c = best.clone(); c.hybrid = false; if attempt!(c) { progress = true; } }
+    // the system-call level extras, one at a time
+    if best.syspoll { let mut c = best.clone(); c.syspoll = false; c.poll_fault = None; if attempt!(c) { progress = true; } }
+    if best.syswrite_short.is_some() { let mut c = best.clone(); c.syswrite_short = None; if attempt!(c) { progress = true; } }
+    if let Some((k, count, kind)) = best.syswrite_fault { if count != 0 { let mut c = best.clone(); c.syswrite_fault = Some((k, 0, kind)); if attempt!(c) { progress = true; } } }
+    if let Some((k, count, kind)) = best.syswrite_fault { if kind != 1 { let mut c = best.clone(); c.syswrite_fault = Some((k, count, 1)); if attempt!(c) { progress = true; } } }
     while best.extra_ticks > 0 && execs < budget { let mut c = best.clone(); c.extra_ticks -= 1; if attempt!(c) { progress = true; } else { break; } }
     // delete arrivals (from the end)
     let mut i = best.kbd.len();
